@@ -25,6 +25,7 @@ def run_basis(ctx, case):
     gm = _gm()
     d, n, with_I = case['d'], case['tensor_n'], case['with_I']
     ctx.note(klass=f'tensor_n={n}', desc=['basis', d, n, with_I], nontrivial=True)
+    ctx.fresh(lambda: gm.all_gellmann_matrix(d, tensor_n=n, with_I=with_I), 'all_gellmann_matrix: a second call is not affected by editing the array returned by the first')
     G = gm.all_gellmann_matrix(d, tensor_n=n, with_I=with_I)
     D = d ** n
     cnt = d ** (2 * n) - (0 if with_I else 1)
@@ -49,6 +50,7 @@ def run_basis(ctx, case):
     if n == 1:
         for i in range(d):
             for j in range(d):
+                ctx.fresh(lambda: gm.gellmann_matrix(i, j, d), 'gellmann_matrix: a second call is not affected by editing the array returned by the first')
                 m = gm.gellmann_matrix(i, j, d)
                 ctx.close(np.trace(m @ m), 2, 1e-12, 'gellmann_matrix normalised')
                 ctx.close(m, m.conj().T, 1e-12, 'gellmann_matrix Hermitian')
